@@ -511,7 +511,7 @@ func (g *Gen) shapeOp(st *State) Ev {
 		return e
 	case 1:
 		e := g.bind(st)
-		e.PrDenom = "foo"
+		e.PrDenom = g.pick([]string{"foo", "foo", "HUGE"})
 		return e
 	case 2:
 		e := g.call(st)
@@ -524,8 +524,11 @@ func (g *Gen) shapeOp(st *State) Ev {
 	case 4:
 		e := g.bindingOp(st)
 		if e.Name == "UpdateBinding" || e.Name == "Enable" {
-			e.DShape = g.pick([]string{"other", "two"})
+			e.DShape = g.pick([]string{"other", "two", "huge"})
 			e.Deposit = 3
+			if e.Name == "UpdateBinding" && g.chance(0.3) {
+				e.HasPr, e.PrDenom, e.DShape, e.Deposit = true, "HUGE", "none", 0
+			}
 		}
 		return e
 	default:
